@@ -17,7 +17,7 @@ func runC15(c *Ctx) {
 	c.Assumptions = []string{"txSortedMap operations are correct", "state.ManagedState mirrors the current state nonces"}
 
 	c.Rule("C15-R1", "guarded-by: pool state is accessed only under TxPool.mu (writes exclusively)", func() {
-		n := c.GuardedBy("C15-R1", guardSpec{Type: "core:TxPool", Lock: "mu", WriteExcl: true,
+		n := c.GuardedBy("C15-R1", guardSpec{Type: "core:TxPool", Lock: "mu", WriteExcl: true, Mutators: true,
 			Fields: []string{"pending", "queue", "all", "priced", "beats", "currentState", "pendingState", "currentMaxGas", "gasPrice"},
 			Exempt: map[string]string{
 				"core.NewTxPool": "constructor: the pool is not shared yet",
